@@ -230,6 +230,30 @@ def translate(repo: Path) -> dict:
     # -- the stores ask their indexers / inflaters to refuse deltas onto their own chain
     stores_reject = chain_check and all("reject_delta_cycles=True" in ast.unparse(n) for n in (thin, addp, cp, mcommit)) and \
         "base_sha=base_sha" in ast.unparse(wr)
+    # -- packed-refs cache: the validity key is recorded only after the parse loops have run to their end
+    rtree = T.module_ast(repo / "dulwich" / "refs.py")
+    gpr = T.find_def(rtree, "DiskRefsContainer.get_packed_refs")
+    key_after_parse = False
+    stale_checked = "self._packed_refs_key != self._current_packed_refs_key()" in ast.unparse(gpr)
+    for wnode in ast.walk(gpr):
+        if isinstance(wnode, ast.With):
+            loops = [n for n in ast.walk(wnode) if isinstance(n, ast.For) and "read_packed_refs" in ast.unparse(n.iter)]
+            if not loops:
+                continue
+            assigns = [n for n in ast.walk(gpr) if isinstance(n, ast.Assign) and ast.unparse(n.targets[0]) == "self._packed_refs_key"]
+            real = [n for n in assigns if not (isinstance(n.value, ast.Constant) and n.value.value is None)]
+            reset = [n for n in assigns if isinstance(n.value, ast.Constant) and n.value.value is None and n.lineno < wnode.lineno]
+            # dominated by the loops: a direct statement of the with-body, after every loop (and after the branch holding them)
+            top = [st for st in wnode.body if st in real]
+            last_loop_end = max(getattr(n, "end_lineno", n.lineno) for n in loops)
+            key_after_parse = len(real) == 1 and len(top) == 1 and top[0].lineno > last_loop_end and bool(reset) and \
+                wnode.body.index(top[0]) == len(wnode.body) - 1
+    if not any(isinstance(n, ast.With) for n in ast.walk(gpr)):
+        raise T.TranslateError("DiskRefsContainer.get_packed_refs: `with f:` parse block not found")
+    rewrites_invalidate = all(
+        any(isinstance(n, ast.Try) and "self._invalidate_packed_refs_cache()" in "".join(ast.unparse(x) for x in n.finalbody)
+            for n in ast.walk(T.find_def(rtree, q)))
+        for q in ("DiskRefsContainer.add_packed_refs", "DiskRefsContainer._remove_packed_ref"))
     # -- index trailer check (SHA1Reader.check_sha)
     cs = T.find_def(ptree, "SHA1Reader.check_sha")
     cs_src = ast.unparse(cs)
@@ -307,6 +331,12 @@ def memAddsIncrementally : Bool := {_lean_bool(mem_incremental)}
 /-- `_follow_chain` raises ApplyDeltaError for `sha in on_chain` and add_thin_pack, add_pack, _complete_pack and
 MemoryObjectStore all pass `reject_delta_cycles=True` -/
 def storesRejectDeltaCycles : Bool := {_lean_bool(stores_reject)}
+/-- `DiskRefsContainer.get_packed_refs`: `_packed_refs_key` is reset to None before the file is opened and assigned its
+real value by the LAST statement of the `with f:` block, after the parse loops; a stale key is checked on entry;
+add_packed_refs / _remove_packed_ref drop the cache in a `finally` -/
+def packedRefsKeyAfterParse : Bool := {_lean_bool(key_after_parse)}
+def packedRefsStaleChecked : Bool := {_lean_bool(stale_checked)}
+def packedRefsRewriteInvalidates : Bool := {_lean_bool(rewrites_invalidate)}
 /-- `SHA1Reader.check_sha(allow_empty=True)` as coded accepts a trailer shorter than 20 bytes unverified -/
 def indexShortTrailerAccepted : Bool := {_lean_bool(index_short_trailer_ok)}
 end Dulwich.Gen.Ingest
@@ -2272,6 +2302,299 @@ def _stream_bombs(ctx):
 
 
 # ------------------------------------------------------------------------------------------------
+# long-lived readers: what a FAILED read leaves behind in a caching reader object (packed-refs)
+
+def _refs_dir(root: str, packed: bytes, loose: dict):
+    os.makedirs(os.path.join(root, "refs", "heads"), exist_ok=True)
+    os.makedirs(os.path.join(root, "refs", "tags"), exist_ok=True)
+    with open(os.path.join(root, "packed-refs"), "wb") as f:
+        f.write(packed)
+    for name, val in loose.items():
+        p = os.path.join(root, *name.split("/"))
+        os.makedirs(os.path.dirname(p), exist_ok=True)
+        with open(p, "wb") as f:
+            f.write(val.encode("latin1") + b"\n")
+
+
+def _refs_op(rc, op):
+    """one operation on a refs container -> canonical outcome string"""
+    try:
+        k = op[0]
+        if k == "get_packed_refs":
+            r = {a.decode("latin1"): b.decode("latin1") for a, b in rc.get_packed_refs().items()}
+        elif k == "read_ref":
+            v = rc.read_ref(op[1].encode("latin1"))
+            r = None if v is None else v.decode("latin1")
+        elif k == "allkeys":
+            r = sorted(x.decode("latin1") for x in rc.allkeys())
+        elif k == "as_dict":
+            r = {a.decode("latin1"): b.decode("latin1") for a, b in rc.as_dict().items()}
+        elif k == "get_peeled":
+            v = rc.get_peeled(op[1].encode("latin1"))
+            r = None if v is None else v.decode("latin1")
+        elif k == "contains":
+            r = op[1].encode("latin1") in rc
+        elif k == "getitem":
+            r = rc[op[1].encode("latin1")].decode("latin1")
+        elif k == "subkeys":
+            r = sorted(x.decode("latin1") for x in rc.subkeys(op[1].encode("latin1")))
+        elif k == "add_packed_refs":
+            rc.add_packed_refs({a.encode("latin1"): (None if b is None else b.encode("latin1")) for a, b in op[1].items()})
+            r = "done"
+        elif k == "pack_refs":
+            rc.pack_refs(all=op[1])
+            r = "done"
+        elif k == "delete":
+            del rc[op[1].encode("latin1")]
+            r = "done"
+        elif k == "set":
+            rc[op[1].encode("latin1")] = op[2].encode("latin1")
+            r = "done"
+        else:
+            raise RuntimeError("unknown op " + str(op))
+        return "ok " + json.dumps(r, sort_keys=True)
+    except KeyError:
+        return "err KeyError"
+    except Exception as e:
+        return "err " + type(e).__name__
+    except BaseException as e:
+        if isinstance(e, KeyboardInterrupt):
+            raise
+        return "base " + type(e).__name__
+
+
+def impl_refs_stateful(a):
+    """ONE DiskRefsContainer: ops in order; beside every outcome, what a FRESH container over the same directory answers to the
+    same op at that moment and (for reads) what a fresh container over the UNDAMAGED file answers; the packed-refs bytes after
+    every rewriting op"""
+    import shutil
+    import tempfile
+    import warnings
+    warnings.simplefilter("ignore")
+    from dulwich.refs import DiskRefsContainer
+    out = []
+    base = tempfile.mkdtemp(prefix="refs", dir=a["scratch"])
+    try:
+        oroot = os.path.join(base, "orig")
+        _refs_dir(oroot, unhx(a["original"]), a["loose"])
+        orig_cache: dict = {}
+        for run in a["runs"]:
+            root = os.path.join(base, f"r{len(out)}")
+            _refs_dir(root, unhx(run["packed"]), a["loose"])
+            rc = DiskRefsContainer(root)
+            steps = []
+            for op in run["ops"]:
+                rewriting = op[0] in ("add_packed_refs", "pack_refs", "delete", "set")
+                if rewriting:
+                    before = open(os.path.join(root, "packed-refs"), "rb").read() if os.path.exists(os.path.join(root, "packed-refs")) else None
+                    got = _refs_op(rc, op)
+                    after = open(os.path.join(root, "packed-refs"), "rb").read() if os.path.exists(os.path.join(root, "packed-refs")) else None
+                    lock = os.path.exists(os.path.join(root, "packed-refs.lock"))
+                    steps.append({"op": op, "got": got, "before": hx(before) if before is not None else None,
+                                  "after": hx(after) if after is not None else None, "lock_left": lock})
+                else:
+                    fresh = _refs_op(DiskRefsContainer(root), op)
+                    ok_ = json.dumps(op)
+                    if ok_ not in orig_cache:
+                        orig_cache[ok_] = _refs_op(DiskRefsContainer(oroot), op)
+                    orig = orig_cache[ok_]
+                    got = _refs_op(rc, op)
+                    steps.append({"op": op, "got": got, "fresh": fresh, "orig": orig})
+            out.append(steps)
+            shutil.rmtree(root, ignore_errors=True)
+    finally:
+        shutil.rmtree(base, ignore_errors=True)
+    return out
+
+
+def _intact_refs(raw: bytes) -> dict:
+    """independent reading of a packed-refs file: the (name -> sha) of every line that is intact on its own"""
+    out = {}
+    for line in raw.split(b"\n"):
+        line = line.rstrip(b"\r")
+        if not line or line.startswith(b"#") or line.startswith(b"^"):
+            continue
+        parts = line.split(b" ")
+        if len(parts) == 2 and _HEX40.match(parts[0]) and _refname_plausible(parts[1]):
+            out[parts[1]] = parts[0]
+    return out
+
+
+def packed_refs_damages(rng, thorough: bool):
+    """(base name, original bytes, [(tag, damaged bytes)]) — damage on lines AFTER the first entry, so that a prefix parses"""
+    hs = [hashlib.sha1(bytes([i])).hexdigest().encode() for i in range(12)]
+    bases = [
+        ("peeled", b"# pack-refs with: peeled fully-peeled sorted \n" +
+         hs[0] + b" refs/heads/main\n" + hs[1] + b" refs/heads/topic/a\n" + hs[2] + b" refs/remotes/origin/main\n" +
+         hs[3] + b" refs/tags/v1\n^" + hs[4] + b"\n" + hs[5] + b" refs/tags/v2\n^" + hs[6] + b"\n" + hs[7] + b" refs/tags/v3\n"),
+        ("plain", hs[0] + b" refs/heads/main\n" + hs[1] + b" refs/heads/topic/a\n" + hs[2] + b" refs/remotes/origin/main\n" +
+         hs[3] + b" refs/tags/v1\n" + hs[5] + b" refs/tags/v2\n"),
+    ]
+    out = []
+    for bname, raw in bases:
+        lines = raw.split(b"\n")[:-1]
+        first_entry = 1 if lines[0].startswith(b"#") else 0
+        D = []
+
+        def put(tag, newlines, tail=b"\n"):
+            D.append((tag, b"\n".join(newlines) + tail))
+        for i in range(first_entry + 1, len(lines)):
+            ln = lines[i]
+            pre, post = lines[:i], lines[i + 1:]
+            if ln.startswith(b"^"):
+                put(f"peeled-nonhex@{i}", pre + [b"^" + ln[1:10] + b"g" + ln[11:]] + post)
+                put(f"peeled-short@{i}", pre + [ln[:20]] + post)
+                put(f"peeled-doubled@{i}", pre + [ln, ln] + post)
+                put(f"peeled-empty@{i}", pre + [b"^"] + post)
+                put(f"peeled-otherhex@{i}", pre + [b"^" + hs[9]] + post)
+                continue
+            sha, name = ln.split(b" ")
+            put(f"sha-nonhex@{i}", pre + [sha[:7] + b"g" + sha[8:] + b" " + name] + post)
+            put(f"sha-space@{i}", pre + [sha[:7] + b" " + sha[8:] + b" " + name] + post)
+            put(f"sha-nul@{i}", pre + [sha[:7] + b"\0" + sha[8:] + b" " + name] + post)
+            put(f"sha-short@{i}", pre + [sha[:39] + b" " + name] + post)
+            put(f"sha-otherhex@{i}", pre + [hs[10] + b" " + name] + post)
+            put(f"name-space@{i}", pre + [sha + b" " + name[:8] + b" " + name[8:]] + post)
+            put(f"name-ctrl@{i}", pre + [sha + b" " + name[:8] + b"\x01" + name[9:]] + post)
+            put(f"name-dotdot@{i}", pre + [sha + b" " + name[:10] + b".." + name[10:]] + post)
+            put(f"name-lock@{i}", pre + [sha + b" " + name + b".lock"] + post)
+            put(f"name-tilde@{i}", pre + [sha + b" " + name[:-1] + b"~"] + post)
+            put(f"no-separator@{i}", pre + [sha + name] + post)
+            put(f"lines-joined@{i}", pre[:-1] + [pre[-1] + ln] + post)
+            put(f"crlf@{i}", pre + [ln + b"\r"] + post)
+            put(f"caret-line@{i}", pre + [b"^" + sha] + post)
+            for cut in (5, 39, 40, 41, len(ln) - 3):
+                put(f"trunc-midline@{i}+{cut}", pre + [ln[:cut]], tail=b"")
+        if thorough or True:
+            start = len(b"\n".join(lines[:first_entry + 1])) + 1
+            for pos in range(start, len(raw), 1 if thorough else 9):
+                for v in (({raw[pos] ^ 0x01, raw[pos] ^ 0x40, 0x00, 0x20, 0x0A} if thorough else {raw[pos] ^ 0x40, 0x0A}) - {raw[pos]}):
+                    D.append((f"byte@{pos}", raw[:pos] + bytes([v]) + raw[pos + 1:]))
+        out.append((bname, raw, D))
+    return out
+
+
+def _stream_refs_stateful(ctx, w):
+    stream = "refs-stateful"
+    rng = ctx.rng
+    h = [hashlib.sha1(bytes([100 + i])).hexdigest() for i in range(4)]
+    loose = {"HEAD": "ref: refs/heads/main", "refs/heads/topic/a": h[0], "refs/heads/looseonly": h[1], "refs/tags/loosetag": h[2]}
+    first_ops = [["get_packed_refs"], ["read_ref", "refs/heads/main"], ["allkeys"], ["as_dict"], ["get_peeled", "refs/tags/v1"],
+                 ["contains", "refs/tags/v2"], ["getitem", "HEAD"]]
+    battery = [["get_packed_refs"], ["read_ref", "refs/heads/main"], ["read_ref", "refs/tags/v2"], ["read_ref", "refs/remotes/origin/main"],
+               ["allkeys"], ["as_dict"], ["subkeys", "refs/tags"], ["get_peeled", "refs/tags/v1"], ["get_peeled", "refs/tags/v2"],
+               ["contains", "refs/tags/v2"], ["contains", "refs/tags/v3"], ["getitem", "HEAD"], ["get_packed_refs"]]
+    rewrites = [["add_packed_refs", {"refs/heads/new": h[3]}], ["pack_refs", True], ["pack_refs", False],
+                ["delete", "refs/tags/v1"], ["delete", "refs/heads/main"], ["add_packed_refs", {"refs/tags/v2": h[3]}],
+                ["add_packed_refs", {"refs/tags/v1": None}]]
+    for bname, raw, damages in packed_refs_damages(rng, ctx.thorough):
+        damages = [("undamaged", raw)] + damages
+        runs, meta = [], []
+        for tag, dmg in damages:
+            fo = first_ops if ctx.thorough else (rng.sample(first_ops, 3) if not tag.startswith("byte@") else [rng.choice(first_ops)])
+            for f in fo:
+                runs.append({"packed": hx(dmg), "ops": [f] + battery})
+                meta.append((tag, dmg, "reads"))
+            runs.append({"packed": hx(dmg), "ops": [["get_packed_refs"], ["get_packed_refs"], rewrites[0], ["get_packed_refs"], ["get_packed_refs"]]})
+            meta.append((tag, dmg, "cacheseq"))
+            for rw in (rewrites if ctx.thorough else (rng.sample(rewrites, 3) if not tag.startswith("byte@") else [rng.choice(rewrites)])):
+                runs.append({"packed": hx(dmg), "ops": [rng.choice(first_ops), rw, ["get_packed_refs"], ["allkeys"]]})
+                meta.append((tag, dmg, "rewrite"))
+        reps = []
+        CH = 150
+        for s in range(0, len(runs), CH):
+            rep = w.ask({"mod": MOD, "op": "refs_stateful", "args": {"runs": runs[s:s + CH], "original": hx(raw), "loose": loose,
+                                                                     "scratch": str(ctx.scratch)}}, timeout=60)
+            if "r" not in rep:
+                _process_failure(ctx, stream, {"file": f"packed-refs {bname}", "runs": f"{s}..{s + CH}"}, rep,
+                                 "a long-lived refs container on a damaged packed-refs file", "refs-stateful")
+                reps.extend([None] * len(runs[s:s + CH]))
+            else:
+                reps.extend(rep["r"])
+        # correspondence: the cache model (Lean) on get / get / rewrite / get / get, its `parse` parameter instantiated with what a
+        # fresh container makes of the same bytes
+        mlines, mmeta = [], []
+        for (tag, dmg, kind), run, steps in zip(meta, runs, reps):
+            if steps is None or kind != "cacheseq":
+                continue
+            fresh0 = steps[0]["fresh"]
+            if fresh0.startswith("ok "):
+                n, e = len(json.loads(fresh0[3:])), 0
+            else:
+                n, e = 0, 1
+                for line in dmg.split(b"\n"):
+                    if line.startswith(b"#") or line.startswith(b"^") or not line:
+                        continue
+                    if _intact_refs(line):
+                        n += 1
+                    else:
+                        break
+            real = []
+            for st in steps:
+                g = st["got"]
+                real.append("err" if g.startswith("err") else ("done" if "before" in st else f"ok {len(json.loads(g[3:]))}"))
+            mlines.append(f"c04.refscache {n} {e} g g a g g")
+            mmeta.append((tag, dmg, " | ".join(real)))
+        for (tag, dmg, real), mo in zip(mmeta, ctx.driver.batch(mlines)):
+            ctx.count(stream + ".model", (bname, dmg), True, f"cacheseq:{'err' if real.startswith('err') else 'ok'}")
+            if mo != real:
+                ctx.disagree(stream + ".model", {"file": f"packed-refs {bname}", "damage": tag, "content": hx(dmg), "ops": "get get add get get"},
+                             mo, real, "DiskRefsContainer cache")
+        for (tag, dmg, kind), run, steps in zip(meta, runs, reps):
+            if steps is None:
+                continue
+            intact = _intact_refs(dmg)
+            history = []
+            any_failed = False
+            for st in steps:
+                op, got = st["op"], st["got"]
+                case = {"file": f"packed-refs {bname}", "damage": tag, "content": hx(dmg), "original": hx(raw), "loose": loose,
+                        "ops_before": list(history), "op": op, "got": got[:300]}
+                history.append([op, got[:80]])
+                if got.startswith("base "):
+                    ctx.oracle_fail(stream, case, f"{op} raised {got[5:]}, not an ordinary Exception", "refs-stateful:baseexception")
+                    continue
+                if "fresh" in st:
+                    ok = got.startswith("err ") or got == st["fresh"] or got == st["orig"]
+                    ctx.count(stream, (bname, tag, json.dumps(run["ops"]), len(history)), True,
+                              f"{kind}:{'after-failure' if any_failed else 'first'}:{op[0]}:{'raises' if got.startswith('err') else 'same-as-fresh' if got == st['fresh'] else 'same-as-undamaged' if got == st['orig'] else 'DIFFERENT'}")
+                    if not ok:
+                        ctx.oracle_fail(stream, dict(case, fresh=st["fresh"][:300], undamaged=st["orig"][:300]),
+                                        f"after {'a FAILED read' if any_failed else 'earlier reads'} through the same DiskRefsContainer, {op} returns data that "
+                                        f"neither a fresh container on the same bytes ({st['fresh'][:60]}…) nor the undamaged file gives: a silent subset",
+                                        f"packed-refs-reader-state-after-failed-read:{op[0]}" if any_failed else f"packed-refs-reader-state:{op[0]}")
+                else:
+                    before = unhx(st["before"]) if st["before"] is not None else None
+                    after = unhx(st["after"]) if st["after"] is not None else None
+                    ctx.count(stream, (bname, tag, json.dumps(run["ops"]), len(history)), True,
+                              f"rewrite:{op[0]}:{'raises' if got.startswith('err') else 'done'}:{'unchanged' if before == after else 'rewritten'}")
+                    if st.get("lock_left"):
+                        ctx.oracle_fail(stream, case, f"{op} left packed-refs.lock behind", "packed-refs-lock-left")
+                    if got.startswith("err "):
+                        if before != after:
+                            ctx.oracle_fail(stream, dict(case, after=hx(after or b"")), f"{op} raised but the packed-refs file was changed",
+                                            "packed-refs-failed-rewrite-changed-file")
+                    elif after is not None and after != before:
+                        dropped = set()
+                        if op[0] == "pack_refs":
+                            # a loose ref overrides its packed entry: packing writes the loose value
+                            dropped = {k.encode() for k in loose if k != "HEAD" and (op[1] or k.startswith("refs/tags/"))}
+                        elif op[0] == "delete":
+                            dropped = {op[1].encode()}
+                        elif op[0] == "add_packed_refs":
+                            dropped = {k.encode() for k in op[1]}
+                        now = _intact_refs(after)
+                        lost = {n: s for n, s in intact.items() if n not in dropped and now.get(n) != s}
+                        if lost:
+                            ctx.oracle_fail(stream, dict(case, after=hx(after), lost={n.decode("latin1"): s.decode() for n, s in lost.items()}),
+                                            f"{op} through a container that had read the DAMAGED file wrote a clean packed-refs file from which "
+                                            f"{sorted(n.decode('latin1') for n in lost)} — intact in the damaged file — are missing: the damage was laundered",
+                                            f"packed-refs-damage-laundered:{op[0]}")
+                if got.startswith("err "):
+                    any_failed = True
+
+
+# ------------------------------------------------------------------------------------------------
 # input-size cap (receive.maxInputSize / add_thin_pack(max_input_size=N)) against peers that never stop sending
 
 CAP = 256 * 1024
@@ -2476,6 +2799,9 @@ def run(ctx: core.Ctx):
         # 7. decompression bombs
         with timed("bombs"):
             _stream_bombs(ctx)
+        # 7b. long-lived readers: state left behind by a FAILED read (packed-refs cache), then reads and rewrites through it
+        with timed("refs-stateful"):
+            _stream_refs_stateful(ctx, w)
         # 8. peers that never stop sending vs the input cap (separate read_all / read_some; real receive-pack handler)
         with timed("input-cap"):
             _stream_capped(ctx, w)
